@@ -1,0 +1,28 @@
+//go:build verif
+
+package proto
+
+import (
+	"net/netip"
+	"time"
+)
+
+// Lemma harnesses: tiny compositions of the functions under contract.  They
+// exist only under the verif build tag; govc verifies each against its
+// contract using the callees' contracts (never their bodies), which turns a
+// pair of functional contracts into a machine-checked round-trip lemma.
+
+func lemmaDateRoundTrip(d Date) Date             { return ToDate(d.Time()) }
+func lemmaDate32RoundTrip(d Date32) Date32       { return ToDate32(d.Time()) }
+func lemmaDateTimeRoundTrip(d DateTime) DateTime { return ToDateTime(d.Time()) }
+func lemmaDateTime64RoundTrip(d DateTime64, p Precision) DateTime64 {
+	return ToDateTime64(d.Time(p), p)
+}
+func lemmaTimeDateTime64(t time.Time, p Precision) time.Time { return ToDateTime64(t, p).Time(p) }
+func lemmaInt128RoundTrip(v int) int                           { return Int128FromInt(v).Int() }
+func lemmaInt128U64RoundTrip(v uint64) uint64                  { return Int128FromUInt64(v).UInt64() }
+func lemmaUInt128RoundTrip(v uint64) uint64                    { return UInt128FromUInt64(v).UInt64() }
+func lemmaUInt128IntRoundTrip(v int) int                       { return UInt128FromInt(v).Int() }
+func lemmaIPv4RoundTrip(v IPv4) IPv4                           { return ToIPv4(v.ToIP()) }
+func lemmaIPv6RoundTrip(v IPv6) IPv6                           { return ToIPv6(v.ToIP()) }
+func lemmaIPv4FromAddr(ip netip.Addr) netip.Addr               { return ToIPv4(ip).ToIP() }
